@@ -158,7 +158,7 @@ class SteadyDetonationReactionZone(ExactSolver):
 
         tsolution = self.run_tvec(tvec)
 
-        xsolution = dict()
+        xsolution = dict(position=xvec)
 
         varnames = ['pressure','velocity','density','sound_speed',
                         'reaction_progress','position_relative']
